@@ -54,6 +54,7 @@ def _add_sample(D, m, counts, idx):
             return z3.And(*cs) if cs else True
         t.prove_paths("each_design_store_is_old_store_plus_its_rows_in_order", paths, goal)
         t.frame_unchanged("frame:Y-not-written", paths, ["Y"])
+        t.agree(paths, k=1)
         t.implicit()
     return _t
 
